@@ -438,6 +438,11 @@ func (ri *reflectInspector) recordArgReflected(val ssa.Value, visited map[ssa.Va
 
 		ri.recursivelyRecordUsedForReflect(val.Type())
 		return val
+
+	default:
+		// Any other value, such as the result of a call, a type assertion,
+		// a map lookup or a function value, is reflected on with its own type.
+		ri.recursivelyRecordUsedForReflect(val.Type())
 	}
 
 	return nil
